@@ -1102,11 +1102,27 @@ impl Evaluator {
         Ok(id)
     }
     fn apply_set(&mut self, items: &[SetItem], rows: &[Env]) -> R<()> {
+        // the same property written with different values by different rows: the outcome depends
+        // on the row order, which openCypher does not define
+        let mut written: BTreeMap<(bool, u64, String), LV> = BTreeMap::new();
         for env in rows {
             for it in items {
                 match it {
                     SetItem::Prop(v, k, e) => {
                         let val = self.eval(e, env)?;
+                        let target = match get(env, v) {
+                            Some(LV::Node(id)) => Some((true, *id, k.clone())),
+                            Some(LV::Rel(id)) => Some((false, *id, k.clone())),
+                            _ => None,
+                        };
+                        if let Some(t) = target {
+                            if let Some(prev) = written.get(&t) {
+                                if *prev != val {
+                                    return unj("SET writes one property with different values in different rows");
+                                }
+                            }
+                            written.insert(t, val.clone());
+                        }
                         if val.is_null() {
                             self.event("set_property_to_null");
                         }
